@@ -489,6 +489,9 @@ func (s *Writer) loadSnapshot(epoch uint64) (*Snapshot, error) {
 			}
 			return nil, fmt.Errorf("error reading snapshot CRC: %w", err)
 		}
+		// fileCRCBytes may alias a memory mapping that closer.Close() unmaps:
+		// keep a copy for the comparison and the error message below
+		fileCRCBytes = append([]byte(nil), fileCRCBytes...)
 		if !bytes.Equal(computedCRCBytes, fileCRCBytes) {
 			if closer != nil {
 				_ = closer.Close()
